@@ -22,6 +22,7 @@ namespace Rbgp.Fsm.TimedProps
 open Rbgp.Fsm Rbgp.Fsm.Timed Rbgp.Fsm.TimedSpec Rbgp.Fsm.TimedProofs
 
 set_option linter.unusedVariables false
+set_option linter.unusedSimpArgs false
 
 /-! ## 0. The reference checker accepts every run -/
 
@@ -406,6 +407,7 @@ theorem expiry_iff_silence {cfg : Cfg} (hv : cfgValid cfg = true) {s : TState} {
     obtain ⟨xup, xcf, -⟩ := confirmed_rel hv h hc
     rcases onFiredAll_nonzero _ _ cs cs1 r k1 xup xcf hne with ⟨e1, -⟩ | _
     · rw [e1 f hf c1] at c2; cases c2
-    · exact ⟨hold_fire_time k1 xup xcf hne hf' hr' hh', hidle⟩
+    · obtain ⟨t1, t2⟩ := hold_fire_time k1 xup xcf hne hf' hr' hh'
+      exact ⟨t1, t2, hidle⟩
 
 end Rbgp.Fsm.TimedProps
